@@ -172,6 +172,8 @@ def parse_operand(s):
         return ('place', parse_place(s[5:]))
     if s.startswith('const '):
         return ('const', s[6:])
+    if re.match(r'^[A-Za-z_<][\w:<>, &\[\]\'{}#@./()-]*$', s):
+        return ('const', s)            # bare fn item used as an operand (e.g. `Option::map(move _1, BffFileName::new)`)
     raise Exception('operand? ' + s)
 
 
